@@ -782,11 +782,25 @@ def expand_files(files):
 
 
 def case_key(case):
+    if case.elem == 'k':
+        return hashlib.sha1(case.text().split(' ', 2)[2].encode()).hexdigest()
     return hashlib.sha1('\n'.join(case.text().split('\n')[1:]).encode() + case.elem.encode()).hexdigest()
 
 
 def run_suite(pid, suite, rng, tier, profiles, workdir, changed):
     cases = suite['gen'](rng, tier, changed)
+    if tier != 'quick':
+        # thorough: the generator is run again with further seeds derived from the first; exhaustive parts repeat and
+        # are dropped as duplicates, random parts (histories, scripts, samples, element-type choices) are new
+        seen = {case_key(c) for c in cases}
+        for rnd in range(1, suite.get('thorough_rounds', 6)):
+            sub = random.Random(f'{rng.random()}-{rnd}')
+            for c in suite['gen'](sub, tier, changed):
+                k = case_key(c)
+                if k not in seen:
+                    seen.add(k)
+                    c.id = f'{c.id}~{rnd}'
+                    cases.append(c)
     corpus = load_corpus(pid)
     cases = corpus + cases
     violations, samples = [], []
@@ -1861,7 +1875,7 @@ def oracle_C03(case, hlines):
     return out
 
 
-SUITES['C03'] = dict(gen=gen_C03, oracle=oracle_C03, files=['src/iter/iter_mut.rs', 'src/iter.rs'],
+SUITES['C03'] = dict(thorough_rounds=2, gen=gen_C03, oracle=oracle_C03, files=['src/iter/iter_mut.rs', 'src/iter.rs'],
                      rule='shapes <= 4x4 and 1x7, 7x1, 2x9, both orders, both axes, element types of size 40/24/0/0 (with and without drop glue); '
                           'every command sequence up to length 4-5 on shapes <= 2x2 and random sequences up to length 60 with all inner iterators alive; '
                           'pointer events from the verif-hooks recorder range-checked inside the harness')
@@ -2004,7 +2018,7 @@ def compare_K(case, hlines, mlines):
     return f
 
 
-SUITES['C08'] = dict(gen=gen_C08, files=['src/shape.rs', 'src/lib.rs', 'src/construct.rs', 'src/convert.rs', 'src/arithmetic.rs', 'src/arithmetic/mul.rs', 'src/parallel.rs'],
+SUITES['C08'] = dict(thorough_rounds=1, gen=gen_C08, files=['src/shape.rs', 'src/lib.rs', 'src/construct.rs', 'src/convert.rs', 'src/arithmetic.rs', 'src/arithmetic/mul.rs', 'src/parallel.rs'],
                      both_profiles=True,
                      rule='all pairs of boundary values (0..3, 2^16, 2^31..2^33, isize::MAX/size_of::<T>() +-1, isize::MAX +-1, usize::MAX) x element sizes 0,1,2,4,8,16,24 '
                           'through check_size, try_to_axis_shape, the five shape-taking entry points, TryFrom, reshape, the eight mapping-style operations and the two products; '
